@@ -11,13 +11,13 @@ CONSTANTS
   TdFlags = {FALSE, TRUE}
   InVecs <- VecsQ
   OrderKinds = {"BIOH"}
-  ActSchemes <- SchemesMixed
+  ActSchemes <- SchemesRec
   LinkCaps = {2}
   MinLinks = 0
   Canonical = TRUE
   AcyclicOnly = FALSE
   Tight = TRUE
-  ModuleActs = {"mul", "min"}
+  ModuleActs = {"mul"}
   ModuleActs2 = {"max"}
   MaxMods = 1
   InsSizes = {1, 2}
